@@ -296,7 +296,13 @@ func (c *FIFO) Put(b bgzf.Block) (evicted bgzf.Block, retained bool) {
 	defer c.mu.Unlock()
 
 	var d bgzf.Block
-	if _, ok := c.table[b.Base()]; ok {
+	if n, ok := c.table[b.Base()]; ok {
+		if n.b == b {
+			// Get does not remove used blocks, so b may be the block
+			// that is already held. It must not be handed back to the
+			// caller for reuse while the cache still refers to it.
+			return nil, false
+		}
 		return b, false
 	}
 	used := b.Used()
